@@ -10,6 +10,7 @@ import (
 	"github.com/git-lfs/git-lfs/v3/fs"
 	"github.com/git-lfs/git-lfs/v3/lfsapi"
 	"github.com/git-lfs/git-lfs/v3/tr"
+	"github.com/git-lfs/git-lfs/v3/verifhook"
 	"github.com/rubyist/tracerx"
 )
 
@@ -107,7 +108,9 @@ type job struct {
 }
 
 func (j *job) Done(err error) {
+	verifhook.Yield("job.result", j)
 	j.results <- TransferResult{j.T, err}
+	verifhook.Yield("job.wgdone", j)
 	j.wg.Done()
 }
 
@@ -117,11 +120,15 @@ func (a *adapterBase) Add(transfers ...*Transfer) <-chan TransferResult {
 	a.jobWait.Add(len(transfers))
 
 	go func() {
+		verifhook.Yield("feeder.start", a)
 		for _, t := range transfers {
+			verifhook.Yield("feeder.send", a)
 			a.jobChan <- &job{t, results, a.jobWait}
 		}
+		verifhook.Yield("feeder.wait", a)
 		a.jobWait.Wait()
 
+		verifhook.Yield("feeder.close", a)
 		close(results)
 	}()
 
@@ -131,10 +138,13 @@ func (a *adapterBase) Add(transfers ...*Transfer) <-chan TransferResult {
 func (a *adapterBase) End() {
 	a.Trace("xfer: adapter %q End()", a.Name())
 
+	verifhook.Yield("end.jobwait", a)
 	a.jobWait.Wait()
+	verifhook.Yield("end.closejobs", a)
 	close(a.jobChan)
 
 	// wait for all transfers to complete
+	verifhook.Yield("end.workerwait", a)
 	a.workerWait.Wait()
 
 	a.Trace("xfer: adapter %q stopped", a.Name())
@@ -149,6 +159,7 @@ func (a *adapterBase) Trace(format string, args ...interface{}) {
 
 // worker function, many of these run per adapter
 func (a *adapterBase) worker(workerNum int, ctx interface{}) {
+	verifhook.YieldN("worker.start", a, workerNum)
 	a.Trace("xfer: adapter %q worker %d starting", a.Name(), workerNum)
 	waitForAuth := workerNum > 0
 	signalAuthOnResponse := workerNum == 0
@@ -159,16 +170,20 @@ func (a *adapterBase) worker(workerNum int, ctx interface{}) {
 	// Deliberately outside jobChan processing so we know worker 0 will process 1st item
 	if waitForAuth {
 		a.Trace("xfer: adapter %q worker %d waiting for Auth", a.Name(), workerNum)
+		verifhook.YieldN("worker.authwait", a, workerNum)
 		a.authWait.Wait()
 		a.Trace("xfer: adapter %q worker %d auth signal received", a.Name(), workerNum)
 	}
 
+	verifhook.YieldN("worker.first", a, workerNum)
 	for job := range a.jobChan {
+		verifhook.YieldN("worker.job", a, workerNum)
 		t := job.T
 
 		var authCallback func()
 		if signalAuthOnResponse {
 			authCallback = func() {
+				verifhook.YieldN("worker.authok", a, workerNum)
 				a.authWait.Done()
 				signalAuthOnResponse = false
 			}
@@ -180,7 +195,9 @@ func (a *adapterBase) worker(workerNum int, ctx interface{}) {
 		if t.Size < 0 {
 			err = errors.New(tr.Tr.Get("object %q has invalid size (got: %d)", t.Oid, t.Size))
 		} else {
+			verifhook.Event("attempt.start", a, t.Oid, workerNum)
 			err = a.transferImpl.DoTransfer(ctx, t, a.cb, authCallback)
+			verifhook.Event("attempt.end", a, t.Oid, workerNum, err)
 		}
 
 		// Mark the job as completed, and alter all listeners
@@ -190,10 +207,12 @@ func (a *adapterBase) worker(workerNum int, ctx interface{}) {
 	}
 	// This will only happen if no jobs were submitted; just wake up all workers to finish
 	if signalAuthOnResponse {
+		verifhook.YieldN("worker.authnone", a, workerNum)
 		a.authWait.Done()
 	}
 	a.Trace("xfer: adapter %q worker %d stopping", a.Name(), workerNum)
 	a.transferImpl.WorkerEnding(workerNum, ctx)
+	verifhook.YieldN("worker.exit", a, workerNum)
 	a.workerWait.Done()
 }
 
